@@ -225,7 +225,10 @@ def generate(ctx):
     gs = groups()
     nG = len(gs)
     pairs = [(k, 0) for k in range(nG)] + [(0, k) for k in range(nG)] + [(k, k) for k in range(nG)]
-    extra = 30 if ctx.tier == "quick" else 120
+    if ctx.tier == "quick":     # two of the three roles per group and run (all three over the seeds)
+        drop = rng.integers(3, size=nG)
+        pairs = [p for i, p in enumerate(pairs) if drop[i % nG] != i // nG]
+    extra = 16 if ctx.tier == "quick" else 120
     for _ in range(extra):
         pairs.append((int(rng.integers(nG)), int(rng.integers(nG))))
     # every ordered pair of crystal systems through representative proper groups: the product sets Gl.Gr and Gr.Gl
@@ -238,8 +241,9 @@ def generate(ctx):
         hexa = {names.index(x) for x in ("3", "32", "312", "6", "622")}
         key = [p for p in cross if (p[0] in cub and p[1] in hexa) or (p[1] in cub and p[0] in hexa)]
         rest = [p for p in cross if p not in key]
-        idx = rng.choice(len(rest), 16, replace=False)
-        cross = key + [rest[i] for i in idx]
+        idx = rng.choice(len(rest), 8, replace=False)
+        kidx = rng.choice(len(key), 10, replace=False)      # half of the cubic x hexagonal ordered pairs per run
+        cross = [key[i] for i in kidx] + [rest[i] for i in idx]
     pairs += cross
     per = 1 if ctx.tier == "quick" else 2
     for kl, kr in pairs:
@@ -247,7 +251,7 @@ def generate(ctx):
         if Gl.size * Gr.size > 600 and ctx.tier == "quick":
             continue
         cubic_hex = {Gl.system, Gr.system} & {"cubic"} and {Gl.system, Gr.system} & {"trigonal", "hexagonal"}
-        for _ in range(per * (2 if cubic_hex else 1)):
+        for _ in range(per * (2 if cubic_hex and ctx.tier != 'quick' else 1)):
             shape = [(1,), (2,), (1, 2), (2, 1)][rng.integers(4)]
             n = int(np.prod(shape))
             q = [GQ.unit_quat(rng)[0] for _ in range(n)]
